@@ -152,6 +152,19 @@ Definition vm_item (s : state) (p : order * N) : state :=
     else (ords s, incr (mult s) o k) in
   mk (add_alts (alts s) (concat o)) (n_alt s) (n_vot s + k)%N (fst om) (snd om) (n_uniq s) (dtype s).
 
+(* ---- instances/sampling.py: prefsampling_ordinal_wrapper ----
+     votes = sampler(... sampler_params)          (rows: one ranking per voter)
+     vote_map = defaultdict(lambda: 0)
+     for order in votes:
+         order = tuple((a,) for a in order)
+         vote_map[order] += 1        (absent key: the default 0 is inserted at the end, then becomes 1)
+     return vote_map
+   populate_X(...) = append_vote_map(generate_X(...)) = append_vote_map(wrapper(sampler rows)) *)
+Definition bump (vm : list (order * N)) (o : order) : list (order * N) :=
+  if has_key vm o then incr vm o 1 else assign vm o 1.
+Definition wrapper (rows : list (list N)) : list (order * N) :=
+  fold_left (fun vm r => bump vm (strictify r)) rows [].
+
 Inductive op :=
 | AppendOrder (o : list N)                    (* append_order(order): a strict order, flat *)
 | AppendArray (rows : list (list N))          (* append_order_array(2-D array) *)
